@@ -494,6 +494,16 @@ func c05Apply(c *eng.Ctx, rule string) {
 	}
 	c.Check(rule, "every-change-applied", hdr.Instrs[0].Pos(), nIter > 0 && skipped == 0, "every change of the list is applied: no way through an iteration skips the change (no 'already up to date' shortcut)", fmt.Sprintf("%d of %d ways through an iteration have no effect", skipped, nIter))
 	c.Check(rule, "no-stale-tree-pointer-across-root-replacement", hdr.Instrs[0].Pos(), stale == "", "a pointer into the tree that is carried from one change to the next is re-derived when a change replaces the root", stale)
+	// Each change's parent is resolved from the root of the working copy. A
+	// directory remembered from the previous change could only be reused if the
+	// next path lies under it component-wise ('lib' is not a parent of 'lib64/a');
+	// that is a fact about string values this analysis cannot establish, so a
+	// carried directory pointer is reported as undecided rather than accepted.
+	for _, o := range others {
+		if eng.TypeShort(o.Type()) == "*synchronization/core.Entry" {
+			c.Problem(rule, "Apply carries a directory of the tree (%s) from one change to the next; whether the next change's path lies under it is not decidable from the code's shape", o.Comment)
+		}
+	}
 	c.Floor(rule, 10)
 }
 
